@@ -331,16 +331,16 @@ pub fn build_world(seed: u64, idx: u64, out: &mut RunOut) -> World {
     stdin: None,
     ci,
     features,
-    csv_header: rk.chance(1, 3),
+    csv_header: if csv_oriented { rk.coin() } else { rk.chance(1, 3) },
     argv: vec![],
   };
   if cmd == "validate" {
     // documents per route
     let mut n_docs = 0;
     for route in ["json", "cbor", "csv"] {
-      let n = if csv_body.is_some() { if route == "csv" { rk.range(1, 3) } else { rk.weighted(&[6, 2, 1, 0]) } } else { rk.weighted(&[4, 4, 3, 1]) };
+      let n = if csv_body.is_some() { if route == "csv" { rk.range(2, 3) } else { rk.weighted(&[6, 2, 1, 0]) } } else { rk.weighted(&[4, 4, 3, 1]) };
       for i in 0..n {
-        let shown = match rw.below(3) {
+        let shown = match if csv_body.is_some() && route == "csv" { rw.weighted(&[4, 1, 1]) } else { rw.below(3) } {
           0 => doc.clone(),
           1 => vary(&mut rw, &dcfg, &doc),
           _ => perturb(&mut rw, &dcfg, &doc),
